@@ -1284,6 +1284,13 @@ def rule_filesink(prog: Program) -> List[Instance]:
                 okl = okl or (writes and unl)
     for lp in loops:
         it = lp.iter
+        if split is not None and isinstance(it, ast.Name) and it.id not in (split[1], parts_p):
+            # a local derived lazily from the remaining parts: (Path(p["Path"]) for p in rest)
+            dv = [v for _, v in org.defs.get(it.id, [])]
+            if len(dv) == 1 and isinstance(dv[0], (ast.GeneratorExp, ast.ListComp)) and len(dv[0].generators) == 1 and isinstance(dv[0].generators[0].iter, ast.Name) and dv[0].generators[0].iter.id in (split[1], parts_p):
+                it = dv[0].generators[0].iter
+            else:
+                continue
         seen_loop = True
         if split is not None and isinstance(it, ast.Name) and it.id in (split[1], parts_p):
             # any way of pushing the part's bytes into the append handle
@@ -1534,6 +1541,14 @@ def rule_rio_layout(prog: Program) -> List[Instance]:
 
                 zipped = _len_carrier(zipped)
                 ok = all(isinstance(d, ast.Call) and call_name(d) == "len" and d.args and short(_len_carrier(d.args[0])) == short(zipped) for d in defs)
+                if not ok:
+                    # positive evidence of a different count: arithmetic on a length, a literal, the length of another parameter
+                    zroots = org.roots(zipped)
+                    differs = any(isinstance(d, (ast.BinOp, ast.Constant)) or (isinstance(d, ast.Call) and call_name(d) in ("max", "min")) or
+                                  (isinstance(d, ast.Call) and call_name(d) == "len" and d.args and zroots and not (org.roots(d.args[0]) & zroots)) for d in defs)
+                    if not differs:
+                        out.append(Instance("R-GUARDSEQ", cid, UNDET, f"count `{short(defs[0], 40)}` and zipped sequence `{short(zipped, 40)}` are spelled differently but derive from the same value: not compared", f.where(c)))
+                        continue
                 out.append(Instance("R-GUARDSEQ", cid, OK if ok else BAD,
                                     f"_memfiles_ovr(len({short(zipped)})): as many side-car files as layers zipped with them" if ok else
                                     f"`{short(c)}` does not create len({short(zipped)}) files (count is `{short(defs[0])}`): zip() stops at the shorter sequence and the last layer(s) are silently not written", f.where(c)))
